@@ -37,6 +37,82 @@ def gen_text(rng, maxn=8, pool=None):
     return ''.join(rng.choice(pool) for _ in range(rng.randint(0, maxn)))
 
 
+# ----------------------------------------------------------------------------------------
+# the size axis: lengths around which a length-dependent code path (a cap, a buffer, a "keep the page small"
+# clean-up) would switch, measured on the raw field, the assembled URL, the escaped URL and the whole body
+
+THRESHOLDS = [250, 1000, 1024, 2048, 4096, 8192, 65536]
+DELTAS = [-2, -1, 0, 1, 2]
+MEASURES = ['field', 'url', 'esc', 'body']
+SIZE_PAYLOADS = ['<script>alert(1)</script>', '"><img src=x onerror=alert(1)>', "'><i>", '</tt><h1>x</h1>', '<b>', '<', '>',
+                 '"', "'", '&', '&lt;', '&amp;lt;', '{url}', '{0}', '{e.__class__}', '<!--', '\\', '\xe9<\xe9', '<\U0001f600>']
+SIZE_PADS = ['a', 'a', 'a', 'ab ', 'a=1&', '&', '<', '>', '"', "'", '\xe9', '\\', '\x7f', '%41', '\U0001f600', '../', './',
+             '{0}', '{', '}}', '\x80', '\u2028', ' ']
+LAYOUTS = ['pad', 'start', 'end', 'middle', 'around', 'repeat', 'straddle', 'every']
+
+
+def fill(pad, n):
+    return (pad * (n // len(pad) + 1))[:n] if n > 0 else ''
+
+
+def sized_text(rng, total, layout=None, payload=None, pad=None):
+    """a text of about `total` characters: padding before / after / around markup payloads, repeated payloads,
+    a payload straddling one of the thresholds, a payload at every threshold"""
+    layout = layout or rng.choice(LAYOUTS)
+    payload = payload if payload is not None else rng.choice(SIZE_PAYLOADS)
+    pad = pad or rng.choice(SIZE_PADS)
+    rest = max(0, total - len(payload))
+    if layout == 'pad':
+        return fill(pad, total)
+    if layout == 'start':
+        return payload + fill(pad, rest)
+    if layout == 'end':
+        return fill(pad, rest) + payload
+    if layout == 'middle':
+        return fill(pad, rest // 2) + payload + fill(pad, rest - rest // 2)
+    if layout == 'around':
+        return payload + fill(pad, max(0, rest - len(payload))) + payload
+    if layout == 'repeat':
+        sep = rng.choice(['', '', ' ', '&', 'a'])
+        unit = payload + sep
+        return (unit * (total // len(unit) + 1))[:max(total, len(unit))]
+    below = [t for t in THRESHOLDS if t <= total] or [total]
+    if layout == 'straddle':          # the payload lies across a threshold
+        t = rng.choice(below)
+        off = max(0, t - rng.randint(0, len(payload) + 1))
+        return fill(pad, off) + payload + fill(pad, max(0, total - off - len(payload)))
+    out, pos = [], 0                  # 'every': one payload just before and one just after every threshold
+    for t in below:
+        for at in (t - len(payload), t):
+            if at >= pos:
+                out.append(fill(pad, at - pos) + payload)
+                pos = at + len(payload)
+    out.append(fill(pad, max(0, total - pos)))
+    return ''.join(out)
+
+
+def size_plan(rng, n, holes):
+    """[(threshold, delta|None, measure|None, slot|None, field|None)]: exact fits `measure == threshold + delta`
+    and approximate sizes.  The quick tier samples the grid (slot and field left to the case generator); the
+    thorough tier walks threshold x delta x measure for every hole (slot, field) of every kind of response,
+    the 64 KiB row with one delta per cell."""
+    plan = []
+    full = n >= 5000
+    for t in THRESHOLDS:
+        heavy = t >= 65536
+        for m in MEASURES:
+            if full:
+                for slot, f in holes:
+                    for d in (DELTAS if not heavy else rng.sample(DELTAS, 1)):
+                        plan.append((t, d, m, slot, f))
+            else:
+                for d in rng.sample(DELTAS, 1 if heavy else 2):
+                    plan.append((t, d, m, None, None))
+        approx = {250: 6, 1000: 6, 1024: 10, 2048: 8, 4096: 8, 8192: 6, 65536: 3}[t] * (6 if full else 1)
+        plan += [(t, None, None, None, None)] * approx
+    return plan
+
+
 def latin1_view(s):
     """what a WSGI server hands over for the bytes of `s`"""
     return s.encode('utf8').decode('latin1')
@@ -99,6 +175,8 @@ class Apps:
         from ombott.request_pkg import errors as rerr
         self.om = om
         self.rerr = rerr
+        from ombott import error_render
+        self.error_render = error_render
         self.cur = cur = Cur()
 
         class Custom(rerr.RequestError):
@@ -221,6 +299,17 @@ def gen_urlenv(rng, rich=True):
     d['sport'] = rng.choice([None, '', '80', '443', '8080', t(2)])
     d['qs'] = rng.choice([None, '', 'a=1&b=2', t(), t(10), latin1_view(t(10)), t(10)])
     d['script'] = rng.choice(SCRIPTS) if rng.random() < .9 else gen_text(rng, 3)
+    if rng.random() < .15:      # unusual but legal header combinations
+        d['host'] = rng.choice(['[::1]', '[::1]:8080', '[2001:db8::1]:443', 'user:pw@example.com', 'example.com:80',
+                                'example.com:443', 'EXAMPLE.com.', 'a.example, b.example', 'xn--bcher-kva.example',
+                                'example.com:0', 'example.com:', ' example.com', 'example.com\t', '*'])
+    if rng.random() < .1:
+        d['fhost'] = rng.choice(['a.example, b.example', 'proxy1, proxy2:8443', '[::1]:80', 'a.example,', ', b', 'unknown'])
+    if rng.random() < .1:
+        d['fproto'] = rng.choice(['https,http', 'HTTPS', 'http, https', 'wss', 'on', 'https ', 'ftp'])
+    if rng.random() < .1:
+        d['sport'], d['scheme'] = rng.choice([('443', 'https'), ('80', 'https'), ('443', 'http'), ('80', 'http'), ('8443', 'https')])
+        d['host'] = d['fhost'] = None
     if not rich:
         d['fproto'] = None
         d['scheme'] = 'http'
@@ -327,7 +416,10 @@ class C20(Check):
             '400/413 bad body via errors_map, 500 crashing handler, hook or iterator, unsupported item type, abort, last-resort page via a failing '
             'error handler or a URL urljoin rejects) x HTML/JSON (Accept) x debug off/on x GET/HEAD through real '
             'Ombott() WSGI calls; unit lines for escape, repr, urlquote, json.dumps, json parsing, str.format, '
-            'render, Request.fullpath, Request.url; non-trivial = input contains one of < > " \' & { }')
+            'render, Request.fullpath, Request.url; a size axis in both streams (request texts and unit inputs at '
+            '250/1000/1024+-2/2048/4096/8192/65536 characters measured on the field, the URL, the escaped URL and the '
+            'body; padding before/after/around payloads, repeated payloads, payloads straddling each threshold), '
+            'request methods and unusual Host / X-Forwarded-* / Accept combinations, cold template cache; non-trivial = input contains one of < > " \' & { }')
     assumptions = ['urljoin is modelled except for the validation of an authority part (//host: IPv6 brackets, NFKC): '
                    'there its live result is shipped to the model; elsewhere a sentinel is shipped instead',
                    'default app_name_header / no domain_map; X-Script-Name not consulted (allow_x_script_name off)',
@@ -539,10 +631,70 @@ class C20(Check):
                 case = self._gen_case(rng)
                 line, ans, sample = self._serve(apps, case)
                 out.append((line, ans, sample))
+            # the size axis through the whole request path
+            holes = [(slot, f) for slot, spec in self.SLOTS.items() for f in spec['fields']]
+            sized = [self._sized_case(apps, rng, i, t, delta, measure, slot, f)
+                     for i, (t, delta, measure, slot, f) in enumerate(size_plan(rng, n, holes))]
+            sized += [self._sized_case(apps, rng, i, t, None, None, slot, f, lay)
+                      for i, (slot, f, t, lay) in enumerate(self._ladder(n >= 5000))]
+            for case in sized:
+                line, ans, sample = self._serve(apps, case)
+                sample = {k: (v if not isinstance(v, str) or len(v) < 300 else v[:120] + f'...[{len(v)} chars]')
+                          for k, v in sample.items() if k not in ('raw', 'raw0', 'env')}
+                sample['case'], sample['kind'] = 'serve-sized', case['kind']
+                sample['seed_kind'] = 'critical' if case['failing'] and not case['debug'] else case['kind']
+                out.append((line, ans, sample))
+            self._sized_units(rng, n, out)
         finally:
             apps.close()
             error_render._html_lns[:] = []
+        rng.shuffle(out)        # lines are stateless; spreads the long ones over the driver shards
         return out
+
+    def _sized_units(self, rng, n, out):
+        """the unit lines at the sizes of the grid: exact on the raw and on the escaped length"""
+        import html
+        from ombott import error_render
+        import ombott.ombott as om
+        import sys
+        quote = sys.modules['ombott.request_pkg.props_mixin'].urlquote
+
+        class E:
+            status, body, exception, traceback = '404 Not Found', 'Not Found', None, None
+        full = n >= 5000
+        for t in THRESHOLDS:
+            heavy = t >= 65536
+            texts = []
+            for d in (DELTAS if full and not heavy else rng.sample(DELTAS, 2)):
+                base = sized_text(rng, rng.choice([8, 40, t // 8]), layout=rng.choice(['start', 'end', 'around', 'repeat']))
+                ins = rng.choice([0, len(base) // 2, len(base)])
+                for ln in (len, lambda x: len(html.escape(x)), lambda x: len(repr(html.escape(x)))):
+                    k = t + d - ln(base)
+                    if k >= 0:
+                        texts.append(base[:ins] + 'a' * k + base[ins:])
+            for _ in range(2 if heavy else 6 if not full else 20):
+                texts.append(sized_text(rng, t))
+            for s in texts:
+                k = rng.randrange(4) if not full else -1
+                if k in (0, -1):
+                    debug = rng.random() < .2
+                    out.append((f'errorpage render {int(debug)} {hs(E.status)} {hs(E.body)} ~ ~ {hs(s)}',
+                                'ok ' + hs(error_render.render(E, s, debug)), dict(kind='render', sized=t, chars=len(s))))
+                if k in (1, -1):
+                    out.append((f'errorpage escape {hs(s)}', hs(error_render.sanitize_html.escape(s)), dict(kind='escape', sized=t)))
+                    out.append((f'errorpage hescape {hs(s)}', hs(om.html_escape(s)), dict(kind='hescape', sized=t)))
+                if k in (2, -1):
+                    out.append((f'errorpage repr {hs(s)}', hs(repr(s)), dict(kind='repr', sized=t)))
+                    out.append((f'errorpage quote {hs(s)}', hs(quote(s)), dict(kind='quote', sized=t)))
+                if k in (3, -1):
+                    txt = json.dumps(dict(body='Not Found', exception=s, traceback=rng.choice([None, s])))
+                    out.append((f'errorpage jparse {hs(txt)}', self._jparse_impl(txt), dict(kind='jparse', sized=t)))
+                    env = base_env()
+                    env['PATH_INFO'] = '/' + s
+                    real, _ = fullpath_of(env, None)
+                    out.append((f'errorpage fullpath ~ {hs(env["PATH_INFO"])} {lib_param(env, real)}', real.replace(':', ' ', 1),
+                                dict(kind='fullpath', sized=t)))
+                self.bump(f'unit:sized:{t}')
 
     def _template_lines(self):
         from ombott import error_render
@@ -565,7 +717,7 @@ class C20(Check):
             return 'some'
         return 'some ' + ','.join(f'{hs(k)}={o(val)}' for k, val in v[1])
 
-    def _gen_case(self, rng):
+    def _gen_case(self, rng, kind=None):
         """a request + what the application is told to do with it"""
         c = {}
         c['debug'] = rng.random() < .2
@@ -576,11 +728,17 @@ class C20(Check):
                                   ' application/json', gen_text(rng, 3)])
         c['env'] = gen_urlenv(rng, rich=rng.random() < .5)
         tail = gen_text(rng, 6)
-        kind = rng.choice(['nf', 'nf', 'nf', 'na', 'crash', 'crash', 'hook', 'badpath', 'badpath', 'reqerr', 'json',
-                           'big', 'abort', 'ok', 'ipv6', 'gen', 'badtype'])
+        kind = kind or rng.choice(['nf', 'nf', 'nf', 'na', 'crash', 'crash', 'hook', 'badpath', 'badpath', 'reqerr', 'json',
+                                   'big', 'abort', 'ok', 'ipv6', 'gen', 'badtype'])
         c['obj'] = rng.randrange(len(BAD_OBJS))
         c['kind'] = kind
-        c['method'] = 'GET'
+        c['method'] = rng.choice(['GET'] * 8 + ['POST', 'PUT', 'DELETE', 'PATCH', 'OPTIONS', 'get', 'head', 'Head', 'FOO', 'TRACE'])
+        if rng.random() < .1:
+            c['accept'] = rng.choice(['application/json, text/html;q=0.9', 'application/json;charset=utf-8', 'Application/JSON',
+                                      'application/json' + ' ' * 300, 'application/json,' + 'x' * 2000, '*/*',
+                                      'text/html,application/xhtml+xml,application/xml;q=0.9,*/*;q=0.8', 'application/',
+                                      'application/json\t', 'application/json-patch+json', 'application/jso'])
+        c['cold'] = rng.random() < .03      # the renderer's line cache is empty for this request
         c['cls'] = rng.choice(EXC).__name__
         c['msg'] = gen_text(rng, 5)
         c['msg2'] = gen_text(rng, 4)
@@ -605,13 +763,115 @@ class C20(Check):
             c['cls'] = rng.choice(['RequestError', 'BodyParsingError', 'BodySizeError', 'Custom'])
         return c
 
-    def _serve(self, apps, c):
+    # which request-derived texts a response shows (its "holes"), per kind of response
+    SLOTS = {
+        'page': dict(kinds=['nf', 'na', 'crash', 'hook', 'badpath', 'reqerr', 'json', 'big', 'gen', 'badtype', 'abort'],
+                     fields=['qs', 'host', 'fhost', 'fproto', 'path', 'script']),
+        'critical': dict(kinds=['nf', 'crash', 'ipv6', 'badpath', 'na', 'gen'], fields=['path']),
+        'json': dict(kinds=['crash', 'hook', 'gen'], fields=['msg', 'tb']),
+        'debug': dict(kinds=['crash', 'gen', 'hook'], fields=['msg', 'tb', 'msg2', 'qs']),
+    }
+    SLOT_CYCLE = ['page', 'page', 'critical', 'page', 'json', 'page', 'critical', 'debug', 'page', 'json']
+    URL_FIELDS = ['qs', 'host', 'fhost', 'fproto', 'path', 'script']
+
+    @staticmethod
+    def _put_field(c, f, text):
+        if f in ('qs', 'host', 'fhost', 'fproto', 'script'):
+            c['env'][f] = text
+        elif f == 'path':
+            c['raw'] = (bytes.fromhex(c['raw0']) + text.encode('utf8')).hex()
+        elif f == 'accept':
+            c['accept'] = c['accept0'] + text
+        else:
+            c[f] = text          # msg, tb, msg2
+
+    def _case_url(self, apps, c):
+        """Request.url of the live code for this case (used for sizing only); None when it raises"""
+        from ombott.request_pkg import Request
+        env = base_env()
+        put_urlenv(env, c['env'])
+        raw = bytes.fromhex(c['raw'])
+        try:
+            env['PATH_INFO'] = raw.decode('utf8')
+        except UnicodeDecodeError:
+            env['PATH_INFO'] = raw.decode('latin1')
+        try:
+            return Request(env, config=apps.apps[(False, False)].config).url
+        except Exception:
+            return None
+
+    def _measure(self, apps, c, m, text):
+        import html
+        if m == 'field':
+            return len(text)
+        if m in ('url', 'esc'):
+            u = self._case_url(apps, c)
+            return None if u is None else len(u) if m == 'url' else len(html.escape(u))
+        _line, ans, _s = self._serve(apps, dict(c, env=dict(c['env'])), count=False)
+        return len(core.unhb(ans.split('body=')[1]).decode('utf8', 'replace'))
+
+    def _sized_case(self, apps, rng, i, t, delta, measure, slot=None, field=None, layout=None):
+        """a WSGI case in which a text the response shows has a size around the threshold `t`"""
+        slot = slot or (self.SLOT_CYCLE[i % len(self.SLOT_CYCLE)] if rng.random() < .85 else 'page')
+        spec = self.SLOTS[slot]
+        kind = spec['kinds'][(i // 3) % len(spec['kinds'])] if field is None else rng.choice(spec['kinds'])
+        c = self._gen_case(rng, kind)
+        c['failing'] = slot == 'critical' and kind != 'ipv6' or (slot == 'debug' and rng.random() < .4)
+        c['debug'] = slot == 'debug' or rng.random() < .05
+        c['head'], c['cold'], c['method'] = rng.random() < .03, False, 'GET'
+        c['accept'] = c['accept0'] = 'application/json' if slot == 'json' else rng.choice([None, 'text/html'])
+        c['raw0'] = c['raw']
+        f = field or (rng.choice(spec['fields']) if rng.random() < .9 else rng.choice(self.URL_FIELDS + ['msg', 'tb']))
+        if measure in ('url', 'esc') and f not in self.URL_FIELDS:
+            measure = 'body'
+        if f == 'fproto' and rng.random() < .5:
+            c['env']['fhost'] = None          # keep the scheme in front of a short host as well
+        if f in ('host',):
+            c['env']['fhost'] = None          # Host is only shown when no forwarded host overrides it
+        if f == 'script':
+            c['env']['script'] = '/s'
+        if delta is None:
+            text = sized_text(rng, int(t * rng.choice([1, 1, 1.05, 1.5])), layout=layout)
+        else:
+            # exact fit: plain padding before / inside / after a small payload-bearing text
+            base = sized_text(rng, rng.choice([0, 12, 40, t // 8]), layout=rng.choice(['start', 'end', 'around', 'repeat', 'pad']))
+            ins = rng.choice([0, len(base) // 2, len(base)])
+            self._put_field(c, f, base)
+            m0 = self._measure(apps, c, measure, base)
+            if m0 is None:
+                measure, m0 = 'field', len(base)
+            k = t + delta - m0
+            text = base[:ins] + 'a' * max(0, k) + base[ins:]
+        self._put_field(c, f, text)
+        c['sized'] = dict(threshold=t, delta=delta, measure=measure, field=f, slot=slot, chars=len(text))
+        self.bump(f'sized:{t}:{measure or "approx"}')
+        self.bump(f'sized:{slot}:{f}')
+        return c
+
+    def _ladder(self, full):
+        """(slot, field, threshold, layout): every hole of every kind of response at every size, with a payload
+        at every threshold below the size (so a cap at any of them shows) and with repeated payloads"""
+        out = []
+        for slot, spec in self.SLOTS.items():
+            for f in spec['fields']:
+                for t in THRESHOLDS:
+                    out.append((slot, f, t, 'every'))
+                    if full or t in (1024, 4096):
+                        out.append((slot, f, t, 'repeat'))
+                    if full:
+                        out += [(slot, f, t, lay) for lay in ('start', 'end', 'around', 'straddle', 'middle')]
+        return out
+
+    def _serve(self, apps, c, count=True):
         """run one case on the real application; returns (line, impl answer, sample)"""
         cur = apps.cur
         app = apps.apps[(c['debug'], c['failing'])]
         kind = c['kind']
         raw = bytes.fromhex(c['raw'])
-        env = base_env('HEAD' if c['head'] else c['method'])
+        method = 'HEAD' if c['head'] else c['method']
+        env = base_env(method)
+        if c.get('cold'):
+            apps.error_render._html_lns[:] = []
         put_urlenv(env, c['env'])
         if c['accept'] is not None:
             env['HTTP_ACCEPT'] = c['accept']
@@ -662,17 +922,21 @@ class C20(Check):
             oc = f'abort:{c["code"]}:{o(c["text"])}'
         elif hit == 'ok':
             oc = f'ok:{hs(cur.text)}'
+        elif hit == 'post':
+            oc = f'ok:{hs("posted")}'
         elif status.startswith('405'):
             oc = f'na:{hs("POST")}'
         else:
             oc = 'nf'
         hfail = c['failing'] and not (hit == 'abort' and c['code'] not in REG_CODES)
         d1 = repr(RuntimeError(c['msg2'])) if hfail else (repr(fp_exc) if fp_exc is not None else '')
-        line = (f'errorpage serve {int(c["debug"])} {int(c["head"])} {hb(raw)} {o(c["accept"])} '
+        # `wsgi` drops the body for REQUEST_METHOD == 'HEAD' exactly (routing upper-cases, this test does not)
+        line = (f'errorpage serve {int(c["debug"])} {int(method == "HEAD")} {hb(raw)} {o(c["accept"])} '
                 f'{urlenv_args(c["env"], fp)} {oc} {int(hfail)} {hs(d1)} {hs(c["tb"])}')
         ans = f'status={hs(status)} ctype={hs(ctype)} body={hb(body)}'
-        self.bump('serve:' + kind + ':' + status.split(' ')[0] + (':json' if 'json' in ctype else ':html')
-                  + (':critical' if status == '500 INTERNAL SERVER ERROR' else '') + (':head' if c['head'] else ''))
+        if count:
+            self.bump('serve:' + kind + ':' + status.split(' ')[0] + (':json' if 'json' in ctype else ':html')
+                      + (':critical' if status == '500 INTERNAL SERVER ERROR' else '') + (':head' if c['head'] else ''))
         sample = dict(c)
         sample['case'] = 'serve'
         return line, ans, sample
@@ -690,7 +954,11 @@ class C20(Check):
             for a, b in rng.sample(WRAPS, rng.randint(2, len(WRAPS))):
                 parts.append(a + m + b)
             extra = rng.choice(['', '{0}', '{url}', '{e.__class__}', '}{', '\xe9', '\\', '%', '{exception}'])
-            return 'w' + extra.join(parts) + extra + 'w'
+            # characters with a role of their own in URLs and header lists, ahead of and between the markers
+            lead = rng.choice(['', '', '#', '?', ', ', ';', '@', ':', '//', ' ', '\t', '%00', '&', '=', '#?', 'a, b, ', '[', '*'])
+            if rng.random() < .3:
+                extra += rng.choice(['#', '?', ', ', ';', '@', ' ', '&', '='])
+            return 'w' + lead + extra.join(parts) + extra + 'w'
         c = dict(kind=rng.choice(['nf', 'nf', 'na', 'crash', 'hook', 'badpath', 'json', 'big', 'reqerr', 'critical', 'ipv6', 'gen']),
                  json=rng.random() < .3, head=False, marks=marks)
         c['path'] = dress(marks['P'])
@@ -702,11 +970,8 @@ class C20(Check):
         c['leak'] = dress(marks['X'])        # exception message / traceback text derived from the request
         return c
 
-    def _taint_run(self, apps, c):
-        """returns (status, ctype, body) of the real application, debug off"""
-        cur = apps.cur
+    def _taint_env(self, c):
         kind = c['kind']
-        app = apps.apps[(False, kind == 'critical')]
         prefix = {'nf': '/zz', 'na': '/post/x', 'crash': '/crash/x', 'hook': '/zz', 'badpath': '/zz\xff',
                   'json': '/json/x', 'big': '/json/x', 'reqerr': '/reqerr/x', 'critical': '/zz',
                   'ipv6': '/http://[', 'gen': '/gen/x'}[kind]
@@ -726,6 +991,14 @@ class C20(Check):
             env.update({'CONTENT_TYPE': 'application/json', 'CONTENT_LENGTH': '4', 'wsgi.input': io.BytesIO(b'{bad')})
         if kind == 'big':
             env.update({'CONTENT_TYPE': 'application/json', 'CONTENT_LENGTH': str(10 ** 9)})
+        return env
+
+    def _taint_run(self, apps, c):
+        """returns (status, ctype, body) of the real application, debug off"""
+        cur = apps.cur
+        kind = c['kind']
+        app = apps.apps[(False, kind == 'critical')]
+        env = self._taint_env(c)
         # a crashing handler typically quotes request data in its message (int(request.query.x) ...)
         leak = c.get('leak') or 'boom'
         cur.cls, cur.msg, cur.msg2, cur.tb = ValueError, leak, 'handler failed: ' + leak, 'Traceback: ' + leak
@@ -734,6 +1007,79 @@ class C20(Check):
         cur.hook = kind == 'hook'
         cur.hit = None
         return wsgi_call(app, env)
+
+    TAINT_FIELDS = ['qs', 'host', 'fhost', 'fproto', 'path', 'leak']
+    TAINT_KINDS = ['nf', 'na', 'crash', 'hook', 'badpath', 'json', 'big', 'reqerr', 'critical', 'ipv6', 'gen']
+    # the holes of each kind of response, as for the correspondence
+    TAINT_SLOTS = {
+        'page': dict(kinds=['nf', 'na', 'crash', 'hook', 'badpath', 'json', 'big', 'reqerr', 'gen'],
+                     fields=['qs', 'host', 'fhost', 'fproto', 'path']),
+        'critical': dict(kinds=['critical', 'ipv6'], fields=['path']),
+        'json': dict(kinds=['crash', 'hook', 'gen'], fields=['leak']),
+    }
+    TAINT_CYCLE = ['page', 'page', 'critical', 'page', 'json', 'page', 'critical', 'page', 'page', 'json']
+
+    def _taint_measure(self, apps, c, m, text):
+        import html
+        from ombott.request_pkg import Request
+        if m == 'field':
+            return len(text)
+        if m in ('url', 'esc'):
+            env = self._taint_env(c)
+            try:
+                env['PATH_INFO'] = env['PATH_INFO'].encode('latin1').decode('utf8')
+            except UnicodeError:
+                pass
+            try:
+                u = Request(env).url
+            except Exception:
+                return None
+            return len(u) if m == 'url' else len(html.escape(u))
+        return len(self._taint_run(apps, c)[2].decode('utf8', 'replace'))
+
+    def _taint_sized(self, apps, rng, i, t, delta, measure, field=None, slot=None, layout=None):
+        """a taint case in which a marker-carrying text the response shows is padded to a size around the
+        threshold `t`: padding before, after and around the dressed markers, or the dressed markers repeated"""
+        c = self._taint_case(rng, 1000 + i)
+        if slot is None:
+            slot = next((sl for sl, sp in self.TAINT_SLOTS.items() if field in sp['fields']), None) if field else None
+            slot = slot or self.TAINT_CYCLE[i % len(self.TAINT_CYCLE)]
+        spec = self.TAINT_SLOTS[slot]
+        c['kind'] = spec['kinds'][(i // 3) % len(spec['kinds'])]
+        c['json'] = slot == 'json'
+        f = field if field in spec['fields'] else rng.choice(spec['fields'])
+        if measure in ('url', 'esc') and f == 'leak':
+            measure = 'body'
+        if f == 'host':
+            c['fhost'] = None
+        if f == 'fproto':
+            c['fhost'] = rng.choice([None, c['fhost']])
+        core_text = c[f] or c['qs']
+        pad = rng.choice(['a', 'a', 'a', '\xe9', '&', '<', '"', 'a=1&', ' ', '%41', '{0}', '\\'])
+        if delta is None:
+            total = int(t * rng.choice([1, 1, 1.05, 1.5]))
+            lay = layout or rng.choice(['after', 'before', 'around', 'between', 'repeat'])
+            rest = max(0, total - len(core_text))
+            if lay == 'after':
+                text = core_text + fill(pad, rest)
+            elif lay == 'before':
+                text = fill(pad, rest) + core_text
+            elif lay == 'around':
+                text = fill(pad, rest // 2) + core_text + fill(pad, rest - rest // 2)
+            elif lay == 'between':
+                text = core_text + fill(pad, max(0, rest - len(core_text))) + core_text
+            else:
+                text = core_text * max(1, total // len(core_text))
+        else:
+            ins = rng.choice([0, len(core_text)])        # plain padding before or after the markers
+            c[f] = core_text
+            m0 = self._taint_measure(apps, c, measure, core_text)
+            if m0 is None:
+                measure, m0 = 'field', len(core_text)
+            text = core_text[:ins] + 'a' * max(0, t + delta - m0) + core_text[ins:]
+        c[f] = text
+        c['sized'] = dict(threshold=t, delta=delta, measure=measure, field=f, slot=slot, chars=len(text))
+        return c
 
     def _baseline(self, apps, status_code):
         """tag skeleton of the same error page for a harmless request (same template, same status)"""
@@ -804,6 +1150,13 @@ class C20(Check):
                         c['kind'] = 'critical'
                     c['json'] = (s.get('accept') or '').startswith('application/json')
                     cases.append(c)
+                    # the same request texts as the disagreeing case, with the markers placed inside them
+                    c2 = dict(c, marks=dict(c['marks']))
+                    for f in ('qs', 'host', 'fhost', 'fproto'):
+                        orig = (s.get('env') or {}).get(f)
+                        if orig and len(orig) < 2000:
+                            c2[f] = orig + (c[f] or c['qs']) + orig
+                    cases.append(c2)
             kinds = ['nf', 'na', 'crash', 'hook', 'badpath', 'json', 'big', 'reqerr', 'critical', 'ipv6', 'gen']
             for i, k in enumerate(kinds):            # every kind x HTML/JSON at least once
                 for js in (False, True):
@@ -812,6 +1165,25 @@ class C20(Check):
                     cases.append(c)
             for i in range(n // 3):
                 cases.append(self._taint_case(rng, i + 100))
+            # the size axis: same grid as the correspondence (sampled in the quick tier)
+            holes = [(slot, f) for slot, spec in self.TAINT_SLOTS.items() for f in spec['fields']]
+            for i, (t, delta, measure, slot, f) in enumerate(size_plan(rng, n, holes)):
+                cases.append(self._taint_sized(apps, rng, i, t, delta, measure, f, slot))
+            for slot, spec in self.TAINT_SLOTS.items():          # every hole at every size, markers everywhere
+                for f in spec['fields']:
+                    for t in THRESHOLDS:
+                        for lay in (('repeat', 'before', 'after') if n < 5000 else ('repeat', 'before', 'after', 'around', 'between')):
+                            if n < 5000 and t >= 65536 and lay != 'repeat':
+                                continue
+                            cases.append(self._taint_sized(apps, rng, len(cases), t, None, None, f, slot, lay))
+            for j, sd in enumerate(s for s in seeds if s.get('case') == 'serve-sized'):
+                z = sd.get('sized', {})
+                fld = {'msg': 'leak', 'tb': 'leak'}.get(z.get('field'), z.get('field'))
+                for rep in range(3):
+                    c = self._taint_sized(apps, rng, j * 3 + rep, z.get('threshold', 1024), z.get('delta'), z.get('measure'), fld)
+                    if sd.get('seed_kind') in self.TAINT_KINDS and z.get('slot') in ('page', 'critical'):
+                        c['kind'] = sd['seed_kind']
+                    cases.append(c)
             for c in cases:
                 evals += 1
                 try:
@@ -832,7 +1204,10 @@ class C20(Check):
         try:
             c = data['input']
             status, ctype, body = self._taint_run(apps, c)
-            return dict(input=c, status=status, content_type=ctype, body=body.decode('utf8', 'replace'),
-                        oracle=self._oracle(apps, c))
+            text = body.decode('utf8', 'replace')
+            if len(text) > 6000:
+                text = text[:3000] + f' ...[{len(text)} chars]... ' + text[-1500:]
+            shown = {k: (v if not isinstance(v, str) or len(v) < 400 else v[:200] + f'...[{len(v)} chars]') for k, v in c.items()}
+            return dict(input=shown, status=status, content_type=ctype, body=text, oracle=self._oracle(apps, c))
         finally:
             apps.close()
